@@ -1,3 +1,242 @@
-import Cutadapt.Adapters
+import Cutadapt.Proofs.MatchSoundRaw
+/-! # C01 — every reported adapter match is a genuine, in-tolerance occurrence
+
+Statements are in the documented vocabulary of `Spec/Occurrence.lean` and `Spec/Edit.lean`; the model is
+`Adapters.matchTo` (the eight `match_to` methods without the k-mer prefilter). What is proved here is the
+soundness half: bounds, placement, overlap, an alignment of cost ≤ `errors` under the documented wildcard rules,
+tolerance on the non-N aligned adapter bases, Hamming distance when indels are off. Minimality of `errors`
+(`errors_minimal_statement`) needs exactness of the banded DP and is stated only. -/
 namespace Cutadapt.C01
+open Cutadapt Cutadapt.Align Cutadapt.Spec Cutadapt.Generated Cutadapt.Adapters Cutadapt.MatchSound
+
+/-- documented adapter type of each adapter class -/
+def docType : AdapterType → AType
+  | .front => .regular5
+  | .rightmostFront => .rightmost5
+  | .back => .regular3
+  | .anywhere => .anywhere
+  | .nonInternalFront => .nonInternal5
+  | .nonInternalBack => .nonInternal3
+  | .prefix => .anchored5
+  | .suffix => .anchored3
+
+/-- well-formedness of an adapter as built by `mkAdapter` from CLI input -/
+structure AdapterWF (a : Adapter) : Prop where
+  upper : ∀ c ∈ a.seq, ¬ (97 ≤ c ∧ c ≤ 122)            -- stored sequence is upper-cased
+  thr_mono : ∀ x y, x ≤ y → a.thr x ≤ a.thr y
+  noForce : a.forceAnywhere = false
+  anchoredOverlap : isAnchored a.ty = true → a.minOverlap = a.seq.length
+
+structure MatchSound (a : Adapter) (read : Bytes) (mt : SingleMatch) : Prop where
+  bounds : mt.astart ≤ mt.astop ∧ mt.astop ≤ a.seq.length ∧ mt.rstart ≤ mt.rstop ∧ mt.rstop ≤ read.length
+  placement : Placement (docType a.ty) a.seq.length read.length mt.astart mt.astop mt.rstart mt.rstop
+  overlap : a.minOverlap ≤ mt.astop - mt.astart
+  script : ∃ s, lhs s = seg a.seq mt.astart mt.astop ∧ rhs s = seg read mt.rstart mt.rstop ∧
+                cost (docMatch a.adapterWildcards a.readWildcards) (indelCost a) s ≤ mt.errors
+  tolerance : mt.errors ≤ a.thr (Spec.effLen a.adapterWildcards a.seq mt.astart mt.astop)
+  removes : mt.before = removesBefore a.ty mt.rstart
+
+/-! ### the generated constants are the documented ones -/
+
+/-- the seven `Where` flag sets are the documented `EndSkip` combinations -/
+theorem flags_match_documentation :
+    whereBack = endSkipQueryStart + endSkipQueryStop + endSkipReferenceEnd ∧
+    whereFront = endSkipQueryStart + endSkipQueryStop + endSkipReferenceStart ∧
+    wherePrefix = endSkipQueryStop ∧
+    whereSuffix = endSkipQueryStart ∧
+    whereFrontNotInternal = endSkipReferenceStart + endSkipQueryStop ∧
+    whereBackNotInternal = endSkipQueryStart + endSkipReferenceEnd ∧
+    whereAnywhere = endSkipReferenceStart + endSkipQueryStart + endSkipReferenceEnd + endSkipQueryStop ∧
+    (endSkipReferenceStart, endSkipQueryStart, endSkipReferenceEnd, endSkipQueryStop) = (1, 2, 4, 8) := by
+  decide
+
+/-- the generated translation tables together with `Aligner`'s comparison implement the documented character
+    matching, for every adapter character that is not a lower-case letter and every read byte -/
+theorem tables_match_documentation (cfg : Cfg) (x y : UInt8) (hx : ¬ (97 ≤ x ∧ x ≤ 122)) :
+    ∃ x' y', encodeRef cfg [x] = [x'] ∧ encodeQuery cfg [y] = [y'] ∧
+      docMatch cfg.wildRef cfg.wildQuery x y = cfg.eq x' y' := by
+  rw [encodeRef_eq_map, encodeQuery_eq_map]
+  exact ⟨_, _, rfl, rfl, docMatch_eq_aligner cfg.wildRef cfg.wildQuery x y hx⟩
+
+/-- the same for the comparers (which upper-case the adapter themselves) -/
+theorem tables_match_documentation_comparer (c : CmpCfg) (x y : UInt8) :
+    ∃ x' y', cmpEncodeRef c [x] = [x'] ∧ cmpEncodeQuery c [y] = [y'] ∧
+      docMatch c.wildRef c.wildQuery x y = charsEqual (!c.wildQuery && !c.wildRef) x' y' := by
+  rw [cmpEncodeRef_eq_map, cmpEncodeQuery_eq_map]
+  exact ⟨_, _, rfl, rfl, docMatch_eq_comparer c.wildRef c.wildQuery x y⟩
+
+/-! ### soundness of the raw alignment of each class -/
+
+theorem alignment_sound (a : Adapter) (read : Bytes) (h : AdapterWF a) {as ae rs re : Nat} {sc : Int} {e : Nat}
+    (hm : alignment a read = some (as, ae, rs, re, sc, e)) :
+    RawSound a.adapterWildcards a.readWildcards (indelCost a) a.thr a.minOverlap a.seq read as ae rs re e ∧
+    Placement (docType a.ty) a.seq.length read.length as ae rs re := by
+  obtain ⟨hup, hmono, hforce, hanch⟩ := h
+  obtain ⟨ty, seq, thr, mo, rw, aw, indels, force, name⟩ := a
+  simp only at hup hmono hforce hanch ⊢
+  subst hforce
+  cases ty
+  case front =>
+    obtain ⟨hs, hr⟩ := locate_raw _ _ _ read rfl hup hmono hm
+    exact ⟨hr, hs.stopRef (by flagbit), hs.startOne⟩
+  case back =>
+    obtain ⟨hs, hr⟩ := locate_raw _ _ _ read rfl hup hmono hm
+    exact ⟨hr, hs.startRef (by flagbit), hs.stopOne⟩
+  case anywhere =>
+    obtain ⟨hs, hr⟩ := locate_raw _ _ _ _ rfl hup hmono hm
+    have hn : (read.map asciiUpper).length = read.length := List.length_map ..
+    exact ⟨hr.upperRead, hs.startOne, by rw [← hn]; exact hs.stopOne⟩
+  case nonInternalFront =>
+    obtain ⟨hs, hr⟩ := locate_raw _ _ _ read rfl hup hmono hm
+    exact ⟨hr, hs.stopRef (by flagbit), hs.startQuery (by flagbit)⟩
+  case nonInternalBack =>
+    obtain ⟨hs, hr⟩ := locate_raw _ _ _ read rfl hup hmono hm
+    exact ⟨hr, hs.startRef (by flagbit), hs.stopQuery (by flagbit)⟩
+  case rightmostFront =>
+    simp only [alignment] at hm
+    split at hm
+    · cases hm
+    · next rs0 re0 qs qe sc0 e0 hloc =>
+      simp only [Option.some.injEq, Prod.mk.injEq] at hm
+      obtain ⟨h1, h2, h3, h4, h5, h6⟩ := hm
+      subst h1 h2 h3 h4 h6
+      obtain ⟨hs, hr⟩ := locate_raw _ _ seq.reverse read.reverse (by simp) (by simpa using hup) hmono hloc
+      have hb := hr.bounds
+      rw [List.length_reverse, List.length_reverse] at hb
+      refine ⟨hr.reverse, ?_, ?_⟩
+      · have := hs.startRef (by flagbit)
+        omega
+      · rcases hs.stopOne with h | h
+        · left; rw [List.length_reverse] at h; omega
+        · right; rw [List.length_reverse] at h; omega
+  case «prefix» =>
+    cases indels
+    · obtain ⟨h1, h2, h3, h4, _, _, hr⟩ := comparePrefix_raw _ _ seq read hup (hanch rfl) hm
+      subst h1 h2 h3 h4
+      exact ⟨hr, rfl, rfl, rfl⟩
+    · obtain ⟨hs, hr⟩ := locate_raw _ _ _ read rfl hup hmono hm
+      exact ⟨hr, hs.startRef (by flagbit), hs.stopRef (by flagbit), hs.startQuery (by flagbit)⟩
+  case suffix =>
+    cases indels
+    · simp only [alignment, Bool.not_false, if_true, compareSuffix] at hm
+      split at hm
+      · cases hm
+      · next x0 len x1 x2 sc0 e0 hcmp =>
+        simp only [Option.some.injEq, Prod.mk.injEq] at hm
+        obtain ⟨h1, h2, h3, h4, h5, h6⟩ := hm
+        subst h1 h2 h3 h4 h6
+        obtain ⟨g1, g2, g3, g4, g5, _, hr⟩ := comparePrefix_raw _ (indelCost _) seq.reverse read.reverse
+          (by simpa using hup) (by rw [List.length_reverse]; exact hanch rfl) hcmp
+        subst g2
+        have hrr := hr.reverse
+        simp only [List.length_reverse, Nat.sub_self, Nat.sub_zero] at hrr ⊢
+        exact ⟨hrr, rfl, rfl, rfl⟩
+    · obtain ⟨hs, hr⟩ := locate_raw _ _ _ read rfl hup hmono hm
+      exact ⟨hr, hs.startRef (by flagbit), hs.stopRef (by flagbit), hs.stopQuery (by flagbit)⟩
+
+
+/-- **C01, soundness half.** Every match reported by `match_to` lies inside adapter and read, obeys the placement
+    rule of its adapter type, covers the minimum overlap, is witnessed by an alignment of cost ≤ `errors` under the
+    documented wildcard rules, and `errors` is within the tolerance on the non-N aligned adapter bases. -/
+theorem matchTo_sound (a : Adapter) (read : Bytes) (h : AdapterWF a) (mt : SingleMatch)
+    (hm : matchTo a read = some mt) : MatchSound a read mt := by
+  unfold matchTo at hm
+  split at hm
+  · cases hm
+  · next as ae rs re sc e hal =>
+    simp only [Option.some.injEq] at hm
+    subst hm
+    obtain ⟨hr, hp⟩ := alignment_sound a read h hal
+    exact ⟨hr.bounds, hp, hr.overlap, hr.script, hr.tolerance, rfl⟩
+
+/-- With indels disabled, aligned adapter and read intervals have equal length and `errors` bounds their Hamming
+    distance (the error rate must not exceed 1, i.e. `thr L ≤ L`; see `noindel_needs_rate_le_one`). -/
+theorem noindel_is_hamming (a : Adapter) (read : Bytes) (mt : SingleMatch) (h : AdapterWF a)
+    (hi : a.indels = false) (hlen : a.seq.length < indelCostOff) (hthr : ∀ L, a.thr L ≤ L)
+    (hm : matchTo a read = some mt) :
+    mt.astop - mt.astart = mt.rstop - mt.rstart ∧
+    hamming (docMatch a.adapterWildcards a.readWildcards) (seg a.seq mt.astart mt.astop)
+      (seg read mt.rstart mt.rstop) ≤ mt.errors := by
+  obtain ⟨⟨b1, b2, b3, b4⟩, _, _, ⟨s, hl, hr, hc⟩, htol, _⟩ := matchTo_sound a read h mt hm
+  have hcost : indelCost a = indelCostOff := by unfold indelCost; rw [hi]; rfl
+  have he : mt.errors < indelCostOff := by
+    have := hthr (Spec.effLen a.adapterWildcards a.seq mt.astart mt.astop)
+    have := spec_effLen_le a.adapterWildcards a.seq mt.astart mt.astop b2
+    omega
+  rw [hcost] at hc
+  obtain ⟨h1, h2⟩ := no_indel_script (docMatch a.adapterWildcards a.readWildcards) indelCostOff s (by omega)
+  rw [hl, hr] at h1 h2
+  rw [seg_length' _ _ _ b2, seg_length' _ _ _ b4] at h1
+  exact ⟨h1, by rw [h2]; exact hc⟩
+
+/-- `errors` is not only an upper bound: no alignment of the two reported intervals is cheaper.
+    (Needs exactness of the banded DP; not proved here.) -/
+def errors_minimal_statement : Prop :=
+  ∀ (a : Adapter) (read : Bytes) (mt : SingleMatch), AdapterWF a → matchTo a read = some mt →
+    ∀ s, lhs s = seg a.seq mt.astart mt.astop → rhs s = seg read mt.rstart mt.rstop →
+      mt.errors ≤ cost (docMatch a.adapterWildcards a.readWildcards) (indelCost a) s
+
+/-! ### non-vacuity: concrete matches (A=65 C=67 G=71 T=84 N=78; lower case +32), tolerance `⌊L/5⌋` -/
+
+def exAdapter (ty : AdapterType) (seq : Bytes) (mo : Nat) (rw aw indels : Bool) : Adapter :=
+  { ty := ty, seq := seq, thr := fun L => L / 5, minOverlap := mo, readWildcards := rw, adapterWildcards := aw,
+    indels := indels }
+
+theorem exAdapter_wf (ty : AdapterType) (seq : Bytes) (mo : Nat) (rw aw indels : Bool)
+    (hup : ∀ c ∈ seq, ¬ (97 ≤ c ∧ c ≤ 122)) (hanch : isAnchored ty = true → mo = seq.length) :
+    AdapterWF (exAdapter ty seq mo rw aw indels) :=
+  ⟨hup, fun _ _ hxy => Nat.div_le_div_right hxy, rfl, hanch⟩
+
+/-- 3' adapter `ACGTACGTAC` in `TTACGTCGTACGG`: one deleted adapter base -/
+example : matchTo (exAdapter .back [65,67,71,84,65,67,71,84,65,67] 3 false false true)
+      [84,84,65,67,71,84,67,71,84,65,67,71,71] = some ⟨0, 10, 2, 11, 7, 1, false⟩ ∧
+    AdapterWF (exAdapter .back [65,67,71,84,65,67,71,84,65,67] 3 false false true) :=
+  ⟨by decide +kernel, exAdapter_wf _ _ _ _ _ _ (by decide) (by decide)⟩
+
+/-- 5' adapter `ACNGTACGTA` with `-N` semantics in `ggACTGTACCTAttt`: the `N` absorbs `T`, one mismatch, and
+    the tolerance is computed from the 9 non-N bases -/
+example : matchTo (exAdapter .front [65,67,78,71,84,65,67,71,84,65] 3 false true true)
+      [103,103,65,67,84,71,84,65,67,67,84,65,116,116,116] = some ⟨0, 10, 2, 12, 8, 1, true⟩ ∧
+    AdapterWF (exAdapter .front [65,67,78,71,84,65,67,71,84,65] 3 false true true) :=
+  ⟨by decide +kernel, exAdapter_wf _ _ _ _ _ _ (by decide) (by decide)⟩
+
+/-- anywhere adapter `ACGTACGTAC`, partial occurrence at the 5' end of the lower-case read `gtacgtacTTTT` -/
+example : matchTo (exAdapter .anywhere [65,67,71,84,65,67,71,84,65,67] 3 false false true)
+      [103,116,97,99,103,116,97,99,84,84,84,84] = some ⟨2, 10, 0, 8, 8, 0, true⟩ ∧
+    AdapterWF (exAdapter .anywhere [65,67,71,84,65,67,71,84,65,67] 3 false false true) :=
+  ⟨by decide +kernel, exAdapter_wf _ _ _ _ _ _ (by decide) (by decide)⟩
+
+/-- anchored 5' adapter without indels (`PrefixComparer`) in `ACGTACCTACGGG`: one mismatch -/
+example : matchTo (exAdapter .prefix [65,67,71,84,65,67,71,84,65,67] 10 false false false)
+      [65,67,71,84,65,67,67,84,65,67,71,71,71] = some ⟨0, 10, 0, 10, 8, 1, true⟩ ∧
+    AdapterWF (exAdapter .prefix [65,67,71,84,65,67,71,84,65,67] 10 false false false) :=
+  ⟨by decide +kernel, exAdapter_wf _ _ _ _ _ _ (by decide) (by decide)⟩
+
+/-- anchored 3' adapter without indels (`SuffixComparer`), read wildcards on, in `GGGACGTNCGTAC` -/
+example : matchTo (exAdapter .suffix [65,67,71,84,65,67,71,84,65,67] 10 true false false)
+      [71,71,71,65,67,71,84,78,67,71,84,65,67] = some ⟨0, 10, 3, 13, 10, 0, false⟩ ∧
+    AdapterWF (exAdapter .suffix [65,67,71,84,65,67,71,84,65,67] 10 true false false) :=
+  ⟨by decide +kernel, exAdapter_wf _ _ _ _ _ _ (by decide) (by decide)⟩
+
+/-- rightmost 5' adapter `ACGTA` picks the second copy in `ACGTATTACGTAGG` -/
+example : matchTo (exAdapter .rightmostFront [65,67,71,84,65] 3 false false true)
+      [65,67,71,84,65,84,84,65,67,71,84,65,71,71] = some ⟨0, 5, 7, 12, 5, 0, true⟩ ∧
+    AdapterWF (exAdapter .rightmostFront [65,67,71,84,65] 3 false false true) :=
+  ⟨by decide +kernel, exAdapter_wf _ _ _ _ _ _ (by decide) (by decide)⟩
+
+/-- non-internal 3' adapter: a prefix of `ACGTACGTAC` at the end of `TTTTACGTA` -/
+example : matchTo (exAdapter .nonInternalBack [65,67,71,84,65,67,71,84,65,67] 3 false false true)
+      [84,84,84,84,65,67,71,84,65] = some ⟨0, 5, 4, 9, 5, 0, false⟩ ∧
+    AdapterWF (exAdapter .nonInternalBack [65,67,71,84,65,67,71,84,65,67] 3 false false true) :=
+  ⟨by decide +kernel, exAdapter_wf _ _ _ _ _ _ (by decide) (by decide)⟩
+
+/-- `noindel_is_hamming` needs `thr L ≤ L`: with an (absurd) tolerance of 200000 errors the indel-free aligner aligns
+    `AC` to `C` through a "forbidden" deletion of cost 100000 -/
+theorem noindel_needs_rate_le_one :
+    ∃ (a : Adapter) (read : Bytes) (mt : SingleMatch), AdapterWF a ∧ a.indels = false ∧
+      a.seq.length < indelCostOff ∧ matchTo a read = some mt ∧ mt.astop - mt.astart ≠ mt.rstop - mt.rstart :=
+  ⟨{ ty := .back, seq := [65,67], thr := fun _ => 200000, minOverlap := 1, readWildcards := false,
+     adapterWildcards := false, indels := false }, [67], ⟨0, 2, 0, 1, -1, 100000, false⟩,
+   ⟨by decide, fun _ _ _ => Nat.le_refl _, rfl, by decide⟩, rfl, by decide, by decide +kernel, by decide⟩
+
 end Cutadapt.C01
